@@ -277,11 +277,24 @@ class Ctx:
 
 
 def load_known():
-    p = os.path.join(VERIF, "known-findings.json")
-    try:
-        return json.load(open(p)).get("findings", [])
-    except Exception:
-        return []
+    """known-findings.json (the committed list) plus per-property fragments in known-findings.d/."""
+    out = []
+    paths = [os.path.join(VERIF, "known-findings.json")]
+    d = os.path.join(VERIF, "known-findings.d")
+    if os.path.isdir(d):
+        paths += sorted(os.path.join(d, f) for f in os.listdir(d) if f.endswith(".json"))
+    for p in paths:
+        try:
+            out += json.load(open(p)).get("findings", [])
+        except Exception:
+            pass
+    seen, uniq = set(), []
+    for k in out:
+        key = (k.get("property"), k.get("sig"), k.get("status"))
+        if key not in seen:
+            seen.add(key)
+            uniq.append(k)
+    return uniq
 
 
 def finish(ctx, search=None):
